@@ -976,4 +976,46 @@ theorem nodup_invEval {e : Ev} {s o : Option Term} (h : (e o s).Nodup) : (invEva
   simp only [Prod.mk.injEq] at e
   exact hne (by rw [e.1, e.2])
 
+/-! ### relational facts behind the constructors' flattening -/
+
+theorem comp_compList (R Y : Rel) : ∀ Zs : List Rel, comp R (compList Y Zs) = compList (comp R Y) Zs
+  | [] => rfl
+  | Z :: Zs => by simp only [compList]; rw [comp_assoc]
+
+theorem compList_append : ∀ (Xs : List Rel) (R : Rel) (Zs : List Rel),
+    compList R (Xs ++ Zs) = compList (compList R Xs) Zs
+  | [], _, _ => rfl
+  | X :: Xs, R, Zs => by
+    simp only [List.cons_append, compList]
+    rw [compList_append Xs X Zs, comp_compList]
+
+theorem unionList_append (As Bs : List Rel) :
+    unionList (As ++ Bs) = fun x y => unionList As x y ∨ unionList Bs x y := by
+  funext x y
+  apply propext
+  simp only [unionList, List.mem_append]
+  constructor
+  · rintro ⟨R, hR | hR, r⟩
+    · exact Or.inl ⟨R, hR, r⟩
+    · exact Or.inr ⟨R, hR, r⟩
+  · rintro (⟨R, hR, r⟩ | ⟨R, hR, r⟩)
+    · exact ⟨R, Or.inl hR, r⟩
+    · exact ⟨R, Or.inr hR, r⟩
+
+theorem unionList_singleton (R : Rel) : unionList [R] = R := by
+  funext x y
+  apply propext
+  simp [unionList]
+
+
+/-- `_eval_seq_bw` on the reversed argument list, for a given end -/
+theorem seqBw_correct {N : List Term} {e : Ev} {R : Rel} {es : List Ev} {Rs : List Rel}
+    (he : Correct N e R) (hL : CorrectL N es Rs) (hR : Iso N R) (hRs : ∀ S ∈ Rs, Iso N S)
+    (s o : Option Term) (hso : o ≠ none ∨ s = none) (x y : Term) :
+    (x, y) ∈ seqBwRev (revOnto es e []).1 (revOnto es e []).2 s o ↔ compList R Rs x y ∧ Restr N s o x y := by
+  obtain ⟨h1, h2⟩ := revOnto_correctL hL e R [] [] he .nil
+  obtain ⟨i1, i2⟩ := revOnto_all (Iso N) Rs R [] hR hRs (by simp)
+  rw [seqBwRev_correct h2 _ _ h1 i1 i2 s o hso x y, compListRev_revOnto Rs R []]
+  rfl
+
 end RV.C11
